@@ -141,6 +141,10 @@ You can provide input either as a file (as the first argument) or by piping logs
 				fmt.Fprintln(os.Stderr, "Error: --encrypt cannot be used with stdin or stdout. Please specify input and output files when using encryption.")
 				os.Exit(1)
 			}
+			if encrypt && encryptionKeyFile == "" {
+				fmt.Fprintln(os.Stderr, "Error: --encrypt needs a key file; --encryptionKeyFile (-q) must not be empty.")
+				os.Exit(1)
+			}
 			if len(args) == 1 {
 				inputFile = args[0]
 			} else if stdinHasData {
